@@ -11,6 +11,12 @@ firstOrderEntry_scale scale_current absGt_not_scale_covariant cm_scale ff_smul_r
 cm_linear_opers cm_linear_opers_data cm_linear_coeffs cm_linear_coeffs_data cm_zero_dt_segment
 cm_drop_zero_segments cm_perm_opers ff_perm_opers cm_split_segment_defect cm_split_segment
 cm_split_segment_error isSegmentCut_exists'''.split()
+# infidelity-level consequences (module Props/C08Inv, namespace FFVerif.C08)
+THEOREMS += ['FFVerif.C08.' + t for t in '''infidelity_split_segment infidelity_split_segment_error
+infidelity_zero_dt_segment infidelity_drop_zero_segments infidelity_perm_opers
+infidelity_perm_opers_entries infidelity_time_unit infidelity_time_unit_fixed_coeffs
+infidelity_scaling_law'''.split()]
+LEAN_MODULES = ['FFVerif.Props.C13', 'FFVerif.Props.C08Inv']
 GEN_SITES = c01.GEN_SITES
 COMPONENTS = c01.COMPONENTS
 RULES = ['correspondence: as C01 (the theorems are about the same executable model); search: '
